@@ -528,9 +528,14 @@ def multi_future(
             for f in children_futs:
                 try:
                     result_list.append(f.result())
-                except Exception as e:
+                except (Exception, asyncio.CancelledError) as e:
+                    # CancelledError is a BaseException: a cancelled child counts
+                    # as failed (and is never logged), it must not escape from
+                    # this done-callback and leave ``future`` pending forever.
                     if future.done():
-                        if not isinstance(e, quiet_exceptions):
+                        if not isinstance(
+                            e, (asyncio.CancelledError, quiet_exceptions)
+                        ):
                             app_log.error(
                                 "Multiple exceptions in yield list", exc_info=True
                             )
